@@ -25,7 +25,7 @@ class Variable(Node):
         # neither is a blank between the value and the semicolon
         if isinstance(self.value, list) and self.value:
             last = self.value[-1]
-            if isinstance(last, tuple) and len(last) > 1 and last[-1] == ' ':
+            if isinstance(last, (tuple, list)) and len(last) > 1 and last[-1] == ' ':
                 self.value[-1] = last[:-1]
         scope.add_variable(self)
         return self
